@@ -35,7 +35,7 @@ func TestC10(t *testing.T) {
 	mix[core.OpDeadRead] = 6
 	mix[core.OpCacheIll] = 3
 	mix[core.OpRegister] = 4
-	mix[core.OpUnregister] = 1
+	mix[core.OpUnregister] = 3
 	mix[core.OpResAdd] = 3
 	mix[core.OpResRemove] = 2
 	mix[core.OpQuery] = 8
